@@ -1,15 +1,19 @@
 #!/bin/sh
 # Build the overlay venv used by every check: Python 3.12 of /venv (has jax, tfp, penzai, beartype, the
-# repo's deps) + z3-solver, cvc5, jsonschema from the offline wheelhouse.  Idempotent, offline.
+# repo's deps) + z3-solver, cvc5, jsonschema from the offline wheelhouse.  Idempotent, offline, safe under
+# concurrent invocation (flock; the venv is built aside and renamed into place).
 set -e
 cd "$(dirname "$0")"
 V=.venv
-if [ -x "$V/bin/python" ] && "$V/bin/python" -c "import z3, cvc5, jsonschema, jax" >/dev/null 2>&1; then
-  exit 0
-fi
-rm -rf "$V"
-/venv/bin/python -m venv "$V"
-PIP_NO_INDEX=1 "$V/bin/python" -m pip install -q --no-index --find-links /opt/veriftools/wheels z3-solver cvc5 jsonschema >/dev/null
-SP=$("$V/bin/python" -c "import sysconfig; print(sysconfig.get_paths()['purelib'])")
+ok() { [ -x "$V/bin/python" ] && "$V/bin/python" -c "import z3, cvc5, jsonschema, jax" >/dev/null 2>&1; }
+ok && exit 0
+exec 9>.venv.lock
+flock 9
+ok && exit 0
+rm -rf "$V" "$V.tmp"
+/venv/bin/python -m venv "$V.tmp"
+PIP_NO_INDEX=1 "$V.tmp/bin/python" -m pip install -q --no-index --find-links /opt/veriftools/wheels z3-solver cvc5 jsonschema >/dev/null
+SP=$("$V.tmp/bin/python" -c "import sysconfig; print(sysconfig.get_paths()['purelib'])")
 echo "import site; site.addsitedir('/venv/lib/python3.12/site-packages')" > "$SP/_venv_overlay.pth"
+mv "$V.tmp" "$V"
 "$V/bin/python" -c "import z3, cvc5, jsonschema, jax"
